@@ -1,6 +1,1277 @@
-//! C11 — stub: correspondence harness not built yet.
+//! C11 — an I/O error never corrupts the index nor is silently swallowed.
+//!
+//! Fault sweep: a workload (script of API calls) is first run without fault on `VDir` to learn its
+//! number `n` of storage operations; then for every `k < n` × {once, from k on} the workload is
+//! re-run with the k-th operation failing — each run in a CHILD PROCESS (`tvh C11 --replay
+//! <case>`) with a wall-clock limit, so that an abort or a hang is observed as such.
+//!
+//! The child records the `Result` of every API call and judges, on the implementation alone:
+//!  (1) a commit that returned Ok is complete (content of the re-opened storage = expected);
+//!  (2) the last successful commit stays readable and searchable after every step (side reader
+//!      on the raw storage) and at the end (fresh `Index::open`, `validate_checksum` clean);
+//!  (3) the injected fault is reported by the call it hit (or a later one), or is confined to a
+//!      merge, or is an ignored GC failure (file stays managed), or fails one reload only;
+//!  (4) after rollback / drop of the failed writer a new writer opens, adds and commits;
+//!  (5) no panic escapes, the process neither aborts nor hangs (parent: exit status, timeout).
+//! It also classifies every faulted operation into the storage phase of the call it hit and asks
+//! the Lean model (`Model/Faults.lean`) for the result of every call of the script actually
+//! executed (recovery calls included); disagreements are correspondence failures.
+use crate::dirs::{OpKind, OpRec, VDir};
 use crate::Ctx;
+use serde_json::{json, Value};
+use std::collections::{BTreeMap, BTreeSet, VecDeque};
+use std::panic::{catch_unwind, AssertUnwindSafe};
+use std::path::{Path, PathBuf};
+use std::sync::{mpsc, Arc, Mutex};
+use std::time::{Duration, Instant};
+use tantivy::collector::DocSetCollector;
+use tantivy::directory::RamDirectory;
+use tantivy::indexer::{IndexWriterOptions, NoMergePolicy};
+use tantivy::query::AllQuery;
+use tantivy::schema::{Field, Schema, Value as _, INDEXED, STORED, TEXT};
+use tantivy::{Directory, Index, IndexReader, IndexSettings, IndexWriter, ReloadPolicy, Searcher, TantivyDocument, Term};
+
+const WLOCK: &str = ".tantivy-writer.lock";
+const MLOCK: &str = ".tantivy-meta.lock";
+const CHILD_TIMEOUT: Duration = Duration::from_secs(60);
+
+// ------------------------------------------------------------------------------------------
+// workloads
+// ------------------------------------------------------------------------------------------
+
+#[derive(Clone, Debug, PartialEq)]
+enum Step {
+    New,
+    Add(u64),
+    Del(u64),
+    Commit,
+    Rollback,
+    Merge,
+    Gc,
+    Reload,
+    Drop,
+    Wait,
+}
+
+impl Step {
+    fn to_json(&self) -> Value {
+        match self {
+            Step::New => json!("new"),
+            Step::Add(n) => json!(["add", n]),
+            Step::Del(i) => json!(["del", i]),
+            Step::Commit => json!("commit"),
+            Step::Rollback => json!("rollback"),
+            Step::Merge => json!("merge"),
+            Step::Gc => json!("gc"),
+            Step::Reload => json!("reload"),
+            Step::Drop => json!("drop"),
+            Step::Wait => json!("wait"),
+        }
+    }
+    fn from_json(v: &Value) -> Option<Step> {
+        if let Some(s) = v.as_str() {
+            return Some(match s {
+                "new" => Step::New,
+                "commit" => Step::Commit,
+                "rollback" => Step::Rollback,
+                "merge" => Step::Merge,
+                "gc" => Step::Gc,
+                "reload" => Step::Reload,
+                "drop" => Step::Drop,
+                "wait" => Step::Wait,
+                _ => return None,
+            });
+        }
+        let a = v.as_array()?;
+        match a.first()?.as_str()? {
+            "add" => Some(Step::Add(a.get(1)?.as_u64()?)),
+            "del" => Some(Step::Del(a.get(1)?.as_u64()?)),
+            _ => None,
+        }
+    }
+}
+
+#[derive(Clone, Debug)]
+struct Workload {
+    name: String,
+    threads: usize,
+    /// segment-cut hook: workers close their segment after this many documents (0 = off)
+    cut: u32,
+    default_merge_policy: bool,
+    dedicated_compressor: bool,
+    steps: Vec<Step>,
+}
+
+impl Workload {
+    fn to_json(&self) -> Value {
+        json!({"name": self.name, "threads": self.threads, "cut": self.cut, "default_merge_policy": self.default_merge_policy,
+               "dedicated_compressor": self.dedicated_compressor, "steps": self.steps.iter().map(|s| s.to_json()).collect::<Vec<_>>()})
+    }
+    fn from_json(v: &Value) -> Option<Workload> {
+        Some(Workload {
+            name: v["name"].as_str()?.to_string(),
+            threads: v["threads"].as_u64()? as usize,
+            cut: v["cut"].as_u64()? as u32,
+            default_merge_policy: v["default_merge_policy"].as_bool()?,
+            dedicated_compressor: v["dedicated_compressor"].as_bool()?,
+            steps: v["steps"].as_array()?.iter().map(Step::from_json).collect::<Option<Vec<_>>>()?,
+        })
+    }
+    /// the Lean model has one worker, explicit merges only and no deletes
+    fn model_applies(&self) -> bool {
+        self.threads == 1 && !self.default_merge_policy
+    }
+    fn has_deletes(&self) -> bool {
+        self.steps.iter().any(|s| matches!(s, Step::Del(_)))
+    }
+}
+
+fn wl(name: &str, threads: usize, cut: u32, dmp: bool, comp: bool, steps: Vec<Step>) -> Workload {
+    Workload { name: name.into(), threads, cut, default_merge_policy: dmp, dedicated_compressor: comp, steps }
+}
+
+fn quick_workloads() -> Vec<Workload> {
+    use Step::*;
+    vec![
+        wl("basic", 1, 0, false, true, vec![New, Add(3), Commit, Add(2), Commit, Reload, Drop]),
+        wl("deletes-merge-gc", 1, 0, false, true, vec![New, Add(3), Commit, Add(2), Del(1), Commit, Merge, Gc, Reload, Drop]),
+        wl("two-threads-cut", 2, 2, false, true, vec![New, Add(6), Commit, Add(4), Commit, Merge, Reload, Drop]),
+        wl("rollback", 1, 0, false, false, vec![New, Add(2), Commit, Add(2), Rollback, Add(1), Commit, Reload, Drop]),
+        wl("reopen", 1, 0, false, true, vec![New, Add(2), Commit, Drop, New, Add(2), Del(0), Commit, Gc, Reload, Drop]),
+        wl("background-merges", 1, 1, true, true, vec![New, Add(9), Commit, Wait, New, Add(1), Commit, Reload, Drop]),
+    ]
+}
+
+fn thorough_workloads(rng: &mut crate::rng::Rng) -> Vec<Workload> {
+    use Step::*;
+    let mut out = quick_workloads();
+    out.push(wl("merge-twice", 1, 2, false, false, vec![New, Add(4), Commit, Merge, Add(3), Commit, Merge, Gc, Reload, Drop]));
+    out.push(wl("wait", 1, 0, false, true, vec![New, Add(2), Commit, Add(1), Wait, New, Add(1), Commit, Reload, Drop]));
+    out.push(wl("two-threads-deletes", 2, 3, false, true, vec![New, Add(7), Del(2), Commit, Del(5), Add(2), Commit, Gc, Reload, Drop]));
+    out.push(wl("reload-often", 1, 0, false, true, vec![New, Reload, Add(1), Commit, Reload, Add(1), Commit, Reload, Gc, Reload, Drop]));
+    out.push(wl("empty-commits", 1, 0, false, true, vec![New, Commit, Add(1), Commit, Commit, Rollback, Commit, Drop]));
+    while out.len() < 40 {
+        let threads = if rng.chance(1, 4) { 2 } else { 1 };
+        let cut = *rng.pick(&[0u32, 0, 1, 2, 3]);
+        let dmp = rng.chance(1, 8);
+        let comp = rng.chance(3, 4);
+        let mut steps = vec![New];
+        let mut have_writer = true;
+        let mut added = 0u64;
+        for _ in 0..(6 + rng.below(7)) {
+            if !have_writer {
+                steps.push(New);
+                have_writer = true;
+                continue;
+            }
+            let s = match rng.below(20) {
+                0..=6 => { let n = 1 + rng.below(4); added += n; Add(n) }
+                7..=10 => Commit,
+                11 => Rollback,
+                12 | 13 => Merge,
+                14 => Gc,
+                15 | 16 => Reload,
+                17 => if added > 0 { Del(rng.below(added)) } else { Commit },
+                18 => { have_writer = false; Drop }
+                _ => { have_writer = false; Wait }
+            };
+            steps.push(s);
+        }
+        if have_writer {
+            steps.push(Commit);
+            steps.push(Drop);
+        }
+        let n = out.len();
+        out.push(wl(&format!("gen-{n}"), threads, cut, dmp, comp, steps));
+    }
+    out
+}
+
+// ------------------------------------------------------------------------------------------
+// child: one faulty run
+// ------------------------------------------------------------------------------------------
+
+#[derive(Clone, Debug)]
+struct CallRec {
+    /// model token without phases (`n`, `a7`, `c`, `r`, `d`, `m`, `g`, `l`) or `-` for calls the
+    /// model does not have (delete_term)
+    tok: String,
+    what: String,
+    res: String,
+    /// first log index of this call
+    from: usize,
+    /// writer generation the call belongs to
+    writer_gen: u64,
+    tags: BTreeSet<&'static str>,
+    background: bool,
+}
+
+struct Child {
+    wl: Workload,
+    policy_b: bool,
+    vdir: VDir,
+    ram: RamDirectory,
+    index: Index,
+    idf: Field,
+    body: Field,
+    writer: Option<IndexWriter>,
+    writer_gen: u64,
+    reader: Option<IndexReader>,
+    searcher_content: Option<BTreeSet<u64>>,
+    next_doc: u64,
+    /// content at the last commit that returned Ok
+    last_ok: BTreeSet<u64>,
+    /// contents of commits attempted (returned Err) since then: "a later complete one"
+    attempts: Vec<BTreeSet<u64>>,
+    /// operations accepted since the last commit / rollback: (is_add, id)
+    pending: Vec<(bool, u64)>,
+    /// policy B: adds that returned Ok since the last call of this writer that returned Err
+    acked_since_err: Vec<u64>,
+    writer_errored: bool,
+    /// a rollback of the current writer returned Err (it lost its lock guard)
+    rollback_failed: bool,
+    calls: Vec<CallRec>,
+    violations: Vec<Value>,
+    counts: BTreeMap<String, u64>,
+    gave_up: bool,
+}
+
+fn schema() -> (Schema, Field, Field) {
+    let mut b = Schema::builder();
+    let idf = b.add_u64_field("id", INDEXED | STORED);
+    let body = b.add_text_field("body", TEXT | STORED);
+    (b.build(), idf, body)
+}
+
+fn short_err(e: &tantivy::TantivyError) -> String {
+    let s = format!("{e:?}");
+    let head: String = s.chars().take_while(|c| c.is_alphanumeric()).collect();
+    format!("err:{head}")
+}
+
+fn read_content(searcher: &Searcher, idf: Field) -> Result<BTreeSet<u64>, String> {
+    let docs = searcher.search(&AllQuery, &DocSetCollector).map_err(|e| format!("search: {e:?}"))?;
+    let mut out = BTreeSet::new();
+    for addr in docs {
+        let d: TantivyDocument = searcher.doc(addr).map_err(|e| format!("doc: {e:?}"))?;
+        let id = d.get_first(idf).and_then(|v| v.as_u64()).ok_or("document without id")?;
+        if !out.insert(id) {
+            return Err(format!("document {id} twice"));
+        }
+    }
+    Ok(out)
+}
+
+fn content_of_storage(dir: impl Into<Box<dyn Directory>>, idf: Field) -> Result<BTreeSet<u64>, String> {
+    let index = Index::open(dir).map_err(|e| format!("Index::open: {e:?}"))?;
+    let reader = index.reader_builder().reload_policy(ReloadPolicy::Manual).try_into().map_err(|e| format!("reader: {e:?}"))?;
+    read_content(&reader.searcher(), idf)
+}
+
+impl Child {
+    fn violation(&mut self, kind: &str, key: &str, what: String) {
+        *self.counts.entry(format!("violation:{key}")).or_insert(0) += 1;
+        if self.violations.iter().filter(|v| v["key"] == key).count() < 2 {
+            self.violations.push(json!({"kind": kind, "key": key, "what": what}));
+        }
+    }
+    fn count(&mut self, k: &str) {
+        *self.counts.entry(k.to_string()).or_insert(0) += 1;
+    }
+    fn expected_now(&self) -> BTreeSet<u64> {
+        let mut s = self.last_ok.clone();
+        for (add, id) in &self.pending {
+            if *add { s.insert(*id); } else { s.remove(id); }
+        }
+        s
+    }
+    fn record(&mut self, tok: String, what: &str, res: String, from: usize) {
+        self.calls.push(CallRec { tok, what: what.into(), res, from, writer_gen: self.writer_gen, tags: BTreeSet::new(), background: false });
+    }
+
+    /// a lock file left behind by a failed flush / delete blocks every later acquisition; the
+    /// harness records it and removes it by hand (as the documentation tells users to)
+    fn clean_stale_locks(&mut self, at: &str) {
+        for (path, what) in [(MLOCK, "meta"), (WLOCK, "writer")] {
+            if path == WLOCK && self.writer.is_some() {
+                continue;
+            }
+            let p = Path::new(path);
+            if !self.ram.exists(p).unwrap_or(false) {
+                continue;
+            }
+            if path == MLOCK {
+                // a background merge may hold it right now
+                let t0 = Instant::now();
+                while self.ram.exists(p).unwrap_or(false) && t0.elapsed() < Duration::from_millis(300) {
+                    std::thread::sleep(Duration::from_millis(5));
+                }
+                if !self.ram.exists(p).unwrap_or(false) {
+                    continue;
+                }
+            }
+            let log = self.vdir.log();
+            let cause = log.iter().rev().find(|r| r.path == path && r.faulted).map(|r| r.kind);
+            let key = match cause {
+                Some(OpKind::Delete) => format!("C11:stale-{what}-lock-after-delete-error"),
+                Some(OpKind::Flush) | Some(OpKind::Write) | Some(OpKind::Terminate) => format!("C11:stale-{what}-lock-after-flush-error"),
+                _ => format!("C11:stale-{what}-lock"),
+            };
+            self.violation("oracle", &key, format!("{path} is left on storage and nobody holds it ({at}); every later acquisition fails or stalls; cause: {cause:?}"));
+            let _ = self.ram.delete(p);
+            if path == WLOCK {
+                let from = self.vdir.log_len();
+                self.record("x".into(), "operator removes the orphaned writer lock", "ok".into(), from);
+            }
+        }
+    }
+
+    /// (2) the committed state is readable and searchable from the raw storage right now
+    fn check_storage(&mut self, at: &str) {
+        self.clean_stale_locks(at);
+        match content_of_storage(self.ram.clone(), self.idf) {
+            Ok(c) => {
+                let ok = if self.policy_b && self.writer_errored {
+                    true // after an unrecovered error only the commit-time rule applies (policy B)
+                } else {
+                    c == self.last_ok || self.attempts.iter().any(|a| *a == c)
+                };
+                if !ok {
+                    self.violation("oracle", "C11:committed-content-changed",
+                        format!("{at}: storage holds {:?}, last successful commit {:?}, later attempts {:?}", c, self.last_ok, self.attempts));
+                }
+            }
+            Err(e) => self.violation("oracle", "C11:last-commit-unreadable", format!("{at}: the committed index cannot be opened and read: {e}")),
+        }
+        let _ = self.ram.delete(Path::new(MLOCK)); // the side reader's own lock never stays, but be safe
+    }
+
+    fn new_writer(&mut self) -> bool {
+        let from = self.vdir.log_len();
+        let opts = IndexWriterOptions::builder().num_worker_threads(self.wl.threads).memory_budget_per_thread(15_000_000).num_merge_threads(2).build();
+        let r = catch_unwind(AssertUnwindSafe(|| self.index.writer_with_options::<TantivyDocument>(opts)));
+        self.writer_gen += 1;
+        match r {
+            Ok(Ok(w)) => {
+                if !self.wl.default_merge_policy {
+                    w.set_merge_policy(Box::new(NoMergePolicy));
+                }
+                self.writer = Some(w);
+                self.rollback_failed = false;
+                self.pending.clear();
+                self.acked_since_err.clear();
+                self.writer_errored = false;
+                self.record("n".into(), "new", "ok".into(), from);
+                true
+            }
+            Ok(Err(e)) => {
+                self.record("n".into(), "new", short_err(&e), from);
+                false
+            }
+            Err(_) => {
+                self.record("n".into(), "new", "panic".into(), from);
+                self.violation("oracle", "C11:panic-in-new-writer", "Index::writer panicked".into());
+                false
+            }
+        }
+    }
+
+    fn drop_writer(&mut self, record: bool) {
+        if let Some(w) = self.writer.take() {
+            let from = self.vdir.log_len();
+            let r = catch_unwind(AssertUnwindSafe(move || drop(w)));
+            if r.is_err() {
+                self.violation("oracle", "C11:panic-in-drop", "dropping the IndexWriter panicked".into());
+            }
+            if record {
+                self.record("d".into(), "drop", if r.is_ok() { "ok".into() } else { "panic".into() }, from);
+            }
+            self.pending.clear();
+        }
+    }
+
+    /// policy A after a writer call failed: rollback (retry once), else drop and reopen
+    fn recover(&mut self) {
+        self.count("recoveries");
+        for attempt in 0..2 {
+            let Some(w) = self.writer.as_mut() else { break };
+            let from = self.vdir.log_len();
+            let r = catch_unwind(AssertUnwindSafe(|| w.rollback()));
+            match r {
+                Ok(Ok(_)) => {
+                    self.record("r".into(), "rollback(recovery)", "ok".into(), from);
+                    self.pending.clear();
+                    self.acked_since_err.clear();
+                    self.writer_errored = false;
+                    self.writer_gen += 1;
+                    return;
+                }
+                Ok(Err(e)) => {
+                    self.record("r".into(), "rollback(recovery)", short_err(&e), from);
+                    self.rollback_failed = true;
+                }
+                Err(_) => {
+                    self.record("r".into(), "rollback(recovery)", "panic".into(), from);
+                    let _ = attempt;
+                    if self.rollback_failed {
+                        self.violation("oracle", "C11:rollback-after-failed-rollback-panics",
+                            "rollback() retried after a rollback that failed with an I/O error panics (`_directory_lock` was already taken)".into());
+                    } else {
+                        self.violation("oracle", "C11:panic-in-rollback", "rollback() panicked".into());
+                    }
+                }
+            }
+        }
+        self.drop_writer(true);
+        self.clean_stale_locks("after dropping the failed writer");
+        if !self.new_writer() {
+            self.clean_stale_locks("after a failed Index::writer");
+            if !self.new_writer() {
+                self.gave_up = true;
+            }
+        }
+    }
+
+    fn after_writer_error(&mut self) {
+        self.writer_errored = true;
+        self.acked_since_err.clear();
+        if !self.policy_b {
+            self.recover();
+        }
+    }
+
+    fn step(&mut self, s: &Step) {
+        if self.gave_up {
+            return;
+        }
+        match s {
+            Step::New => {
+                if self.writer.is_some() {
+                    return;
+                }
+                if !self.new_writer() {
+                    self.clean_stale_locks("after a failed Index::writer");
+                    if !self.new_writer() {
+                        self.gave_up = true;
+                    }
+                }
+            }
+            Step::Add(n) => {
+                for _ in 0..*n {
+                    if self.gave_up {
+                        return;
+                    }
+                    if self.writer.is_none() && !self.new_writer() {
+                        self.gave_up = true;
+                        return;
+                    }
+                    let id = self.next_doc;
+                    self.next_doc += 1;
+                    let mut d = TantivyDocument::default();
+                    d.add_u64(self.idf, id);
+                    d.add_text(self.body, format!("document number {id} lorem ipsum"));
+                    let from = self.vdir.log_len();
+                    let w = self.writer.as_mut().unwrap();
+                    let r = catch_unwind(AssertUnwindSafe(|| w.add_document(d)));
+                    match r {
+                        Ok(Ok(_)) => {
+                            self.pending.push((true, id));
+                            self.acked_since_err.push(id);
+                            self.record(format!("a{id}"), "add", "ok".into(), from);
+                        }
+                        Ok(Err(e)) => {
+                            self.record(format!("a{id}"), "add", short_err(&e), from);
+                            self.after_writer_error();
+                        }
+                        Err(_) => {
+                            self.record(format!("a{id}"), "add", "panic".into(), from);
+                            self.violation("oracle", "C11:panic-in-add", "add_document panicked".into());
+                            self.after_writer_error();
+                        }
+                    }
+                }
+            }
+            Step::Del(id) => {
+                let Some(w) = self.writer.as_mut() else { return };
+                let from = self.vdir.log_len();
+                let term = Term::from_field_u64(self.idf, *id);
+                let r = catch_unwind(AssertUnwindSafe(|| w.delete_term(term)));
+                if r.is_err() {
+                    self.violation("oracle", "C11:panic-in-delete", "delete_term panicked".into());
+                }
+                self.pending.push((false, *id));
+                self.record("-".into(), "delete", "ok".into(), from);
+            }
+            Step::Commit => {
+                let Some(w) = self.writer.as_mut() else { return };
+                let from = self.vdir.log_len();
+                let r = catch_unwind(AssertUnwindSafe(|| w.commit()));
+                let expected = self.expected_now();
+                match r {
+                    Ok(Ok(_)) => {
+                        self.record("c".into(), "commit", "ok".into(), from);
+                        // (1) complete: the storage now holds exactly the expected documents
+                        self.clean_stale_locks("after commit");
+                        match content_of_storage(self.ram.clone(), self.idf) {
+                            Ok(c) => {
+                                if self.writer_errored && self.policy_b {
+                                    let missing: Vec<u64> = self.acked_since_err.iter().filter(|d| !c.contains(d)).cloned().collect();
+                                    if !missing.is_empty() {
+                                        self.violation("oracle", "C11:commit-ok-after-failed-commit-loses-documents",
+                                            format!("commit returned Ok on a writer whose earlier call failed (no rollback): documents {missing:?}, whose add_document returned Ok after that failure, are not in the index"));
+                                    }
+                                    self.last_ok = c;
+                                } else {
+                                    if c != expected {
+                                        self.violation("oracle", "C11:commit-ok-incomplete", format!("commit returned Ok; storage holds {c:?}, expected {expected:?}"));
+                                    }
+                                    self.last_ok = expected;
+                                }
+                            }
+                            Err(e) => {
+                                self.violation("oracle", "C11:commit-ok-unreadable", format!("commit returned Ok but the index cannot be read: {e}"));
+                                self.last_ok = expected;
+                            }
+                        }
+                        self.attempts.clear();
+                        self.pending.clear();
+                        self.acked_since_err.clear();
+                    }
+                    Ok(Err(e)) => {
+                        self.record("c".into(), "commit", short_err(&e), from);
+                        self.attempts.push(expected);
+                        self.after_writer_error();
+                    }
+                    Err(_) => {
+                        self.record("c".into(), "commit", "panic".into(), from);
+                        self.violation("oracle", "C11:panic-in-commit", "commit panicked".into());
+                        self.attempts.push(expected);
+                        self.after_writer_error();
+                    }
+                }
+            }
+            Step::Rollback => {
+                if self.writer.is_none() {
+                    return;
+                }
+                let from = self.vdir.log_len();
+                let w = self.writer.as_mut().unwrap();
+                let r = catch_unwind(AssertUnwindSafe(|| w.rollback()));
+                match r {
+                    Ok(Ok(_)) => {
+                        self.record("r".into(), "rollback", "ok".into(), from);
+                        self.pending.clear();
+                        self.acked_since_err.clear();
+                        self.writer_errored = false;
+                        self.writer_gen += 1;
+                    }
+                    Ok(Err(e)) => {
+                        self.record("r".into(), "rollback", short_err(&e), from);
+                        self.writer_errored = true;
+                        self.rollback_failed = true;
+                        if !self.policy_b {
+                            self.recover();
+                        }
+                    }
+                    Err(_) => {
+                        self.record("r".into(), "rollback", "panic".into(), from);
+                        if self.rollback_failed {
+                            self.violation("oracle", "C11:rollback-after-failed-rollback-panics", "rollback() after a rollback that failed with an I/O error panics".into());
+                        } else {
+                            self.violation("oracle", "C11:panic-in-rollback", "rollback() panicked".into());
+                        }
+                        self.drop_writer(true);
+                        self.clean_stale_locks("after dropping the failed writer");
+                        if !self.new_writer() {
+                            self.gave_up = true;
+                        }
+                    }
+                }
+            }
+            Step::Merge => {
+                if self.writer.is_none() {
+                    return;
+                }
+                let from0 = self.vdir.log_len();
+                let ids = match catch_unwind(AssertUnwindSafe(|| self.index.searchable_segment_ids())) {
+                    Ok(Ok(ids)) => {
+                        self.record("-".into(), "searchable_segment_ids", "ok".into(), from0);
+                        ids
+                    }
+                    _ => {
+                        // unreadable meta.json right now: the harness has nothing to merge
+                        self.record("-".into(), "searchable_segment_ids", "err".into(), from0);
+                        return;
+                    }
+                };
+                if ids.is_empty() {
+                    return;
+                }
+                let from = self.vdir.log_len();
+                let w = self.writer.as_mut().unwrap();
+                let r = catch_unwind(AssertUnwindSafe(|| w.merge(&ids).wait()));
+                match r {
+                    Ok(Ok(_)) => self.record("m".into(), "merge", "ok".into(), from),
+                    Ok(Err(e)) => self.record("m".into(), "merge", short_err(&e), from), // confined to the merge
+                    Err(_) => {
+                        self.record("m".into(), "merge", "panic".into(), from);
+                        self.violation("oracle", "C11:panic-in-merge", "merge(..).wait() panicked".into());
+                    }
+                }
+            }
+            Step::Gc => {
+                let Some(w) = self.writer.as_mut() else { return };
+                let from = self.vdir.log_len();
+                let r = catch_unwind(AssertUnwindSafe(|| w.garbage_collect_files().wait()));
+                match r {
+                    Ok(Ok(res)) => {
+                        // files that could not be deleted stay managed (and on storage)
+                        let managed = self.index.directory().list_managed_files();
+                        for f in &res.failed_to_delete_files {
+                            if !managed.contains(f) || !self.ram.exists(f).unwrap_or(false) {
+                                self.violation("oracle", "C11:gc-failed-delete-forgotten", format!("{f:?} could not be deleted but is no longer managed / present"));
+                            }
+                        }
+                        self.record("g".into(), "gc", "ok".into(), from)
+                    }
+                    Ok(Err(e)) => self.record("g".into(), "gc", short_err(&e), from),
+                    Err(_) => {
+                        self.record("g".into(), "gc", "panic".into(), from);
+                        self.violation("oracle", "C11:panic-in-gc", "garbage_collect_files().wait() panicked".into());
+                    }
+                }
+            }
+            Step::Reload => {
+                let from = self.vdir.log_len();
+                let r = catch_unwind(AssertUnwindSafe(|| -> tantivy::Result<()> {
+                    match &self.reader {
+                        Some(r) => r.reload(),
+                        None => {
+                            let r: IndexReader = self.index.reader_builder().reload_policy(ReloadPolicy::Manual).try_into()?;
+                            self.reader = Some(r);
+                            Ok(())
+                        }
+                    }
+                }));
+                match r {
+                    Ok(Ok(())) => {
+                        self.record("l".into(), "reload", "ok".into(), from);
+                        let c = read_content(&self.reader.as_ref().unwrap().searcher(), self.idf);
+                        match c {
+                            Ok(c) => {
+                                let fine = (self.policy_b && self.writer_errored) || c == self.last_ok || self.attempts.iter().any(|a| *a == c);
+                                if !fine {
+                                    self.violation("oracle", "C11:reader-sees-uncommitted-content", format!("after reload the searcher holds {c:?}; last successful commit {:?}", self.last_ok));
+                                }
+                                self.searcher_content = Some(c);
+                            }
+                            Err(e) => self.violation("oracle", "C11:searcher-unreadable", format!("searcher after a successful reload: {e}")),
+                        }
+                    }
+                    Ok(Err(e)) => {
+                        self.record("l".into(), "reload", short_err(&e), from);
+                        // the old searcher is unaffected
+                        if let (Some(r), Some(old)) = (&self.reader, &self.searcher_content) {
+                            match read_content(&r.searcher(), self.idf) {
+                                Ok(c) if c == *old => {}
+                                other => {
+                                    let old = old.clone();
+                                    self.violation("oracle", "C11:failed-reload-disturbs-searcher", format!("after a failed reload the searcher holds {other:?}, before {old:?}"))
+                                }
+                            }
+                        }
+                    }
+                    Err(_) => {
+                        self.record("l".into(), "reload", "panic".into(), from);
+                        self.violation("oracle", "C11:panic-in-reload", "reader creation / reload panicked".into());
+                    }
+                }
+            }
+            Step::Drop => self.drop_writer(true),
+            Step::Wait => {
+                let Some(w) = self.writer.take() else { return };
+                let from = self.vdir.log_len();
+                let r = catch_unwind(AssertUnwindSafe(move || w.wait_merging_threads()));
+                self.pending.clear();
+                match r {
+                    Ok(Ok(())) => self.record("d".into(), "wait_merging_threads", "ok".into(), from),
+                    Ok(Err(e)) => self.record("d".into(), "wait_merging_threads", short_err(&e), from),
+                    Err(_) => {
+                        self.record("d".into(), "wait_merging_threads", "panic".into(), from);
+                        self.violation("oracle", "C11:panic-in-wait", "wait_merging_threads panicked".into());
+                    }
+                }
+            }
+        }
+    }
+
+    /// attribute every faulted operation to the call during which it was issued and to a phase
+    fn classify(&mut self, log: &[OpRec]) {
+        // who created each file (the thread that opened it for writing)
+        let mut creator: BTreeMap<&str, &str> = BTreeMap::new();
+        for r in log {
+            if r.kind == OpKind::OpenWrite {
+                creator.entry(r.path.as_str()).or_insert(r.thread.as_str());
+            }
+        }
+        let starts: Vec<usize> = self.calls.iter().map(|c| c.from).collect();
+        for (i, r) in log.iter().enumerate() {
+            if !r.faulted {
+                continue;
+            }
+            let ci = match starts.iter().rposition(|s| *s <= i) {
+                Some(ci) => ci,
+                None => continue,
+            };
+            let call_tok = self.calls[ci].tok.clone();
+            let c0 = call_tok.chars().next().unwrap_or('-');
+            let from = starts[ci];
+            // did this call's updater already write meta.json successfully before operation i?
+            let meta_written = log[from..i].iter().any(|x| x.kind == OpKind::AtomicWrite && x.path == "meta.json" && x.ok && x.thread == "segment_updater");
+            let created_by = creator.get(r.path.as_str()).cloned().unwrap_or("");
+            let th = r.thread.as_str();
+            let (tag, bg): (&'static str, bool) = if r.path == WLOCK {
+                match r.kind {
+                    OpKind::OpenWrite => ("lo", false),
+                    OpKind::Delete => ("ld", false),
+                    _ => ("lf", false),
+                }
+            } else if r.path == MLOCK && r.kind == OpKind::Delete {
+                ("gx", false)
+            } else if r.path == MLOCK {
+                if c0 == 'l' { ("rl", false) } else if th == "segment_updater" && (c0 == 'g' || c0 == 'c' || c0 == 'm') {
+                    ("gl", false)
+                } else { ("bg", true) }
+            } else if th.starts_with("merge_thread") || (th == "docstore-compressor-thread" && created_by.starts_with("merge_thread")) {
+                if c0 == 'm' { ("mt", false) } else { ("bg", true) }
+            } else if th.starts_with("thrd-tantivy-index") || th == "docstore-compressor-thread" {
+                ("wk", false)
+            } else if th == "segment_updater" {
+                match c0 {
+                    'c' => {
+                        if !meta_written {
+                            if r.kind == OpKind::SyncDir || r.path == "meta.json" || r.path == ".managed.json" && r.kind == OpKind::AtomicWrite && log[from..i].iter().any(|x| x.kind == OpKind::SyncDir && x.thread == "segment_updater") { ("sm", false) } else { ("pu", false) }
+                        } else {
+                            match r.kind { OpKind::Delete => ("gd", false), _ => ("gm", false) }
+                        }
+                    }
+                    'm' => {
+                        if !meta_written {
+                            if r.kind == OpKind::SyncDir || r.path == "meta.json" { ("es", false) } else { ("ep", false) }
+                        } else {
+                            match r.kind { OpKind::Delete => ("gd", false), _ => ("gm", false) }
+                        }
+                    }
+                    'g' => match r.kind { OpKind::Delete => ("gd", false), _ => ("gm", false) },
+                    _ => ("bg", true),
+                }
+            } else {
+                // the thread that runs the script
+                match c0 {
+                    'n' | 'r' => ("cr", false),
+                    'l' => ("rl", false),
+                    _ => ("xx", false),
+                }
+            };
+            self.calls[ci].tags.insert(tag);
+            if bg {
+                self.calls[ci].background = true;
+            }
+        }
+    }
+
+    /// (3) implementation-only rules: a call whose own storage phases hit the fault must not return Ok
+    fn oracle_reported(&mut self) {
+        let calls = self.calls.clone();
+        let mut worker_failed_gen: Option<u64> = None;
+        // a failed merge must stay confined: the same writer's later calls, when they hit no
+        // fault themselves, still succeed
+        let mut merge_failed_gen: Option<u64> = None;
+        let mut other_failure_gen: Option<u64> = None;
+        for c in &calls {
+            {
+                let c0 = c.tok.chars().next().unwrap_or('-');
+                let own_fault = c.tags.iter().any(|t| *t != "bg" && *t != "gx");
+                if c.res != "ok" && !own_fault && matches!(c0, 'a' | 'c' | 'g' | 'm')
+                    && merge_failed_gen == Some(c.writer_gen) && other_failure_gen != Some(c.writer_gen) && worker_failed_gen != Some(c.writer_gen)
+                {
+                    self.violation("oracle", "C11:merge-error-not-confined", format!("after a merge of this writer failed, `{}` returned {} although none of its own storage operations failed", c.what, c.res));
+                }
+                if c.res != "ok" {
+                    if c0 == 'm' { merge_failed_gen = Some(c.writer_gen); } else if matches!(c0, 'a' | 'c' | 'r') { other_failure_gen = Some(c.writer_gen); }
+                }
+                if c.tags.contains("wk") {
+                    other_failure_gen = Some(c.writer_gen);
+                }
+            }
+            let c0 = c.tok.chars().next().unwrap_or('-');
+            let ok = c.res == "ok";
+            let has = |t: &str| c.tags.contains(t);
+            if has("xx") && c.tok != "-" {
+                self.violation("model", "C11:unclassified-fault", format!("a faulted operation during `{}` could not be attributed to a phase", c.what));
+            }
+            match c0 {
+                'n' if ok && (has("lo") || has("lf") || has("cr")) => self.violation("oracle", "C11:error-swallowed-in-new-writer", format!("Index::writer returned Ok although {:?} failed", c.tags)),
+                'c' => {
+                    let updater_attributable = !self.wl.default_merge_policy;
+                    if ok && (has("wk") || (updater_attributable && (has("pu") || has("sm")))) {
+                        self.violation("oracle", "C11:error-swallowed-in-commit", format!("commit returned Ok although one of its storage operations failed (phases {:?})", c.tags));
+                    }
+                    if ok && worker_failed_gen == Some(c.writer_gen) {
+                        self.violation("oracle", "C11:worker-error-swallowed", "an indexing worker hit the fault during an earlier add_document and the next commit of that writer returned Ok".into());
+                    }
+                    worker_failed_gen = None;
+                }
+                'a' | '-' => {
+                    if has("wk") {
+                        worker_failed_gen = Some(c.writer_gen);
+                    }
+                }
+                'r' => {
+                    if ok && has("cr") {
+                        self.violation("oracle", "C11:error-swallowed-in-rollback", "rollback returned Ok although reading the index failed".into());
+                    }
+                    if ok { worker_failed_gen = None; }
+                }
+                'd' => {
+                    worker_failed_gen = None;
+                }
+                'm' if ok && (has("mt") || has("ep") || has("es")) => self.violation("oracle", "C11:error-swallowed-in-merge", format!("merge returned Ok although {:?} failed", c.tags)),
+                'l' if ok && has("rl") => self.violation("oracle", "C11:error-swallowed-in-reload", "reload returned Ok although one of its reads failed".into()),
+                'g' if ok && (has("gl") || has("gm")) => self.violation("oracle", "C11:error-swallowed-in-gc", format!("garbage_collect_files returned Ok although {:?} failed", c.tags)),
+                _ => {}
+            }
+        }
+    }
+
+    fn compare_with_model(&mut self, ctx: &mut Ctx) {
+        if !self.wl.model_applies() || self.calls.iter().any(|c| c.background) {
+            self.count("model:skipped");
+            return;
+        }
+        // a worker that fails while the script is in a call the model does not have (delete_term)
+        // is the next modelled call's worker failure
+        let mut carried: BTreeSet<&'static str> = BTreeSet::new();
+        for i in 0..self.calls.len() {
+            if self.calls[i].tok == "-" {
+                if self.calls[i].tags.contains("wk") {
+                    carried.insert("wk");
+                }
+            } else if !carried.is_empty() {
+                let c0 = self.calls[i].tok.chars().next().unwrap_or('-');
+                if c0 == 'a' || c0 == 'c' {
+                    let add: Vec<&'static str> = carried.iter().cloned().collect();
+                    for t in add {
+                        self.calls[i].tags.insert(t);
+                    }
+                }
+                carried.clear();
+            }
+        }
+        let toks: Vec<String> = self.calls.iter().filter(|c| c.tok != "-").map(|c| {
+            let tags: Vec<&str> = c.tags.iter().cloned().filter(|t| *t != "gx" && *t != "xx" && *t != "bg").collect();
+            if tags.is_empty() { c.tok.clone() } else { format!("{}:{}", c.tok, tags.join("+")) }
+        }).collect();
+        let line = format!("C11 run cap {}", if toks.is_empty() { "-".into() } else { toks.join(",") });
+        let resp = ctx.model.ask(&line);
+        let model_res: Vec<&str> = resp.split('|').next().unwrap_or("").split(',').collect();
+        let real: Vec<CallRec> = self.calls.iter().filter(|c| c.tok != "-").cloned().collect();
+        if toks.is_empty() {
+            return;
+        }
+        let mut mismatch: Option<String> = None;
+        let mut worker_fault_open = false;
+        for (i, c) in real.iter().enumerate() {
+            let m = model_res.get(i).cloned().unwrap_or("?");
+            let r = if c.res.starts_with("err") { "err" } else { c.res.as_str() };
+            let c0 = c.tok.chars().next().unwrap();
+            if c.tags.contains("wk") && c0 == 'a' {
+                worker_fault_open = true;
+            }
+            if c0 == 'c' || c0 == 'r' || c0 == 'd' || c0 == 'n' {
+                if m != r && mismatch.is_none() {
+                    mismatch = Some(format!("call {i} `{}` ({:?}): implementation {r}, model {m}", c.what, c.tags));
+                }
+                worker_fault_open = false;
+                continue;
+            }
+            if m != r {
+                // the bomb goes off when the failing worker has unwound: an add racing with it may still succeed
+                if c0 == 'a' && worker_fault_open && m == "err" && r == "ok" {
+                    self.count("model:racy-add-accepted");
+                    continue;
+                }
+                if mismatch.is_none() {
+                    mismatch = Some(format!("call {i} `{}` ({:?}): implementation {r}, model {m}", c.what, c.tags));
+                }
+            }
+        }
+        self.count("model:compared");
+        if let Some(m) = mismatch {
+            self.violation("model", "C11:call-results-differ-from-model", format!("{m}; script {}; model {}", toks.join(","), resp));
+        }
+    }
+}
+
+fn child_main(ctx: &mut Ctx, case: &Value) {
+    let out_path = PathBuf::from(case["out"].as_str().expect("out"));
+    let wl = Workload::from_json(&case["workload"]).expect("workload");
+    let fault: Option<(u64, bool)> = case["k"].as_u64().map(|k| (k, case["perm"].as_bool().unwrap_or(false)));
+    let policy_b = case["policy"].as_str() == Some("B");
+    if wl.cut > 0 {
+        tantivy::verif::set_segment_cut_docs(wl.cut);
+    }
+    let (schema, idf, body) = schema();
+    let vdir = VDir::new();
+    let ram = vdir.inner.clone();
+    let settings = IndexSettings { docstore_compress_dedicated_thread: wl.dedicated_compressor, ..Default::default() };
+    let index = Index::create(vdir.clone(), schema, settings).expect("index creation (not faulted)");
+    let mut ch = Child {
+        wl: wl.clone(), policy_b, vdir: vdir.clone(), ram, index, idf, body, writer: None, writer_gen: 0, reader: None,
+        searcher_content: None, next_doc: 0, last_ok: BTreeSet::new(), attempts: vec![], pending: vec![], acked_since_err: vec![],
+        writer_errored: false, rollback_failed: false, calls: vec![], violations: vec![], counts: BTreeMap::new(), gave_up: false,
+    };
+    // arm the fault: operation numbering starts here
+    vdir.with_state(|s| {
+        s.log.clear();
+        s.faultable_seen = 0;
+        s.fail_at = fault;
+    });
+    let timing = std::env::var("C11_TIMING").is_ok();
+    for (i, s) in wl.steps.iter().enumerate() {
+        let t0 = Instant::now();
+        ch.step(s);
+        let t1 = Instant::now();
+        ch.check_storage(&format!("after step {i} {s:?}"));
+        if timing {
+            eprintln!("step {i} {s:?}: {:?} + check {:?}", t1 - t0, t1.elapsed());
+        }
+    }
+    let n_ops = vdir.with_state(|s| s.faultable_seen);
+    // the faults are over
+    vdir.with_state(|s| s.fail_at = None);
+    let log = vdir.log();
+    ch.drop_writer(false);
+    ch.reader = None;
+    ch.clean_stale_locks("at the end of the script");
+    ch.classify(&log);
+    ch.oracle_reported();
+    ch.compare_with_model(ctx);
+    // (2)/(4): fresh Index on the same storage, checksums, content, a new writer continues
+    let final_check = catch_unwind(AssertUnwindSafe(|| -> Result<(), (String, String)> {
+        let index = Index::open(vdir.clone()).map_err(|e| ("C11:reopen-failed".to_string(), format!("Index::open after the faults are over: {e:?}")))?;
+        let damaged = index.validate_checksum().map_err(|e| ("C11:reopen-failed".to_string(), format!("validate_checksum: {e:?}")))?;
+        if !damaged.is_empty() {
+            return Err(("C11:committed-file-damaged".into(), format!("validate_checksum reports {damaged:?}")));
+        }
+        let reader: IndexReader = index.reader_builder().reload_policy(ReloadPolicy::Manual).try_into().map_err(|e| ("C11:reopen-failed".to_string(), format!("reader: {e:?}")))?;
+        let c = read_content(&reader.searcher(), idf).map_err(|e| ("C11:last-commit-unreadable".to_string(), e))?;
+        let allowed = (policy_b && ch.writer_errored) || c == ch.last_ok || ch.attempts.iter().any(|a| *a == c);
+        if !allowed {
+            return Err(("C11:committed-content-changed".into(), format!("re-opened index holds {c:?}, last successful commit {:?}, later attempts {:?}", ch.last_ok, ch.attempts)));
+        }
+        let mut w: IndexWriter = index.writer_with_num_threads(1, 15_000_000).map_err(|e| ("C11:no-new-writer-after-failure".to_string(), format!("Index::writer after the failed writer was dropped and the faults are over: {e:?}")))?;
+        let mut d = TantivyDocument::default();
+        d.add_u64(idf, 1_000_000);
+        d.add_text(body, "after recovery");
+        w.add_document(d).map_err(|e| ("C11:new-writer-cannot-continue".to_string(), format!("add: {e:?}")))?;
+        w.commit().map_err(|e| ("C11:new-writer-cannot-continue".to_string(), format!("commit: {e:?}")))?;
+        drop(w);
+        reader.reload().map_err(|e| ("C11:new-writer-cannot-continue".to_string(), format!("reload: {e:?}")))?;
+        let c2 = read_content(&reader.searcher(), idf).map_err(|e| ("C11:new-writer-cannot-continue".to_string(), e))?;
+        let mut want = c.clone();
+        want.insert(1_000_000);
+        if c2 != want {
+            return Err(("C11:new-writer-cannot-continue".into(), format!("after the new writer's commit the index holds {c2:?}, expected {want:?}")));
+        }
+        Ok(())
+    }));
+    match final_check {
+        Ok(Ok(())) => {}
+        Ok(Err((key, what))) => ch.violation("oracle", &key, what),
+        Err(_) => ch.violation("oracle", "C11:panic-after-recovery", "re-opening the index / the new writer panicked".into()),
+    }
+    let faulted: Vec<String> = log.iter().filter(|r| r.faulted).take(6).map(|r| r.line()).collect();
+    let n_faulted = log.iter().filter(|r| r.faulted).count();
+    let calls: Vec<Value> = ch.calls.iter().map(|c| json!({"call": c.what, "tok": c.tok, "res": c.res, "phases": c.tags.iter().collect::<Vec<_>>()})).collect();
+    let any_err = ch.calls.iter().any(|c| c.res != "ok");
+    let op_threads: Vec<String> = if fault.is_none() { log.iter().map(|r| format!("{}|{}|{}", r.thread, r.kind.name(), r.path)).collect() } else { vec![] };
+    let res = json!({
+        "op_threads": op_threads,
+        "n_ops": n_ops, "n_faulted": n_faulted, "faulted": faulted, "calls": calls, "violations": ch.violations,
+        "counts": ch.counts, "any_err": any_err, "gave_up": ch.gave_up,
+        "phases": ch.calls.iter().flat_map(|c| c.tags.iter().cloned()).collect::<BTreeSet<_>>(),
+    });
+    std::fs::write(&out_path, res.to_string()).expect("write child result");
+}
+
+// ------------------------------------------------------------------------------------------
+// parent
+// ------------------------------------------------------------------------------------------
+
+fn model_path_arg() -> String {
+    let args: Vec<String> = std::env::args().collect();
+    args.iter().position(|a| a == "--model").and_then(|i| args.get(i + 1).cloned()).unwrap_or_else(|| "/verif/lean/.lake/build/bin/tvmodel".into())
+}
+
+fn scratch_dir() -> tempfile::TempDir {
+    let shm = Path::new("/dev/shm");
+    if shm.is_dir() {
+        if let Ok(d) = tempfile::tempdir_in(shm) {
+            return d;
+        }
+    }
+    tempfile::tempdir().unwrap()
+}
+
+enum ChildOutcome {
+    /// the operating system refused to start the child (resource limits); not a verdict
+    NotRun,
+    Done(Value),
+    Timeout,
+    Died(String),
+}
+
+fn run_child(case: &Value, scratch: &Path, tag: &str, model: &str) -> ChildOutcome {
+    let out = scratch.join(format!("{tag}.out"));
+    let case_path = scratch.join(format!("{tag}.case"));
+    let mut c = case.clone();
+    c["child"] = json!(true);
+    c["out"] = json!(out.to_str().unwrap());
+    std::fs::write(&case_path, c.to_string()).unwrap();
+    // a loaded machine may refuse a fork for a moment: retry, never take that for a verdict
+    let mut spawned = None;
+    for attempt in 0..200 {
+        match std::process::Command::new(std::env::current_exe().unwrap())
+            .args(["C11", "--replay", case_path.to_str().unwrap(), "--model", model, "--out", "/dev/null"])
+            .env("RUST_BACKTRACE", "0")
+            .stdout(std::process::Stdio::null())
+            .stderr(std::process::Stdio::null())
+            .spawn()
+        {
+            Ok(c) => {
+                spawned = Some(c);
+                break;
+            }
+            Err(_) => std::thread::sleep(Duration::from_millis(50 + 10 * attempt)),
+        }
+    }
+    let Some(mut child) = spawned else {
+        let _ = std::fs::remove_file(&case_path);
+        return ChildOutcome::NotRun;
+    };
+    let t0 = Instant::now();
+    let status = loop {
+        match child.try_wait() {
+            Ok(Some(st)) => break Some(st),
+            Ok(None) => {
+                if t0.elapsed() > case["timeout_s"].as_u64().map(Duration::from_secs).unwrap_or(CHILD_TIMEOUT) {
+                    let _ = child.kill();
+                    let _ = child.wait();
+                    break None;
+                }
+                std::thread::sleep(Duration::from_millis(3));
+            }
+            Err(_) => break None,
+        }
+    };
+    let _ = std::fs::remove_file(&case_path);
+    let res = match status {
+        None => ChildOutcome::Timeout,
+        // exit code 101 before any result was written and within a moment: the child's own start-up
+        // (spawning its model driver) failed under load
+        Some(st) if !st.success() && !out.exists() && t0.elapsed() < Duration::from_millis(500) && case["retried"].as_u64().unwrap_or(0) < 4 => {
+            let mut c2 = case.clone();
+            let n = case["retried"].as_u64().unwrap_or(0) + 1;
+            c2["retried"] = json!(n);
+            std::thread::sleep(Duration::from_millis(300 * n));
+            return run_child(&c2, scratch, tag, model);
+        }
+        Some(st) => match std::fs::read_to_string(&out).ok().and_then(|s| serde_json::from_str::<Value>(&s).ok()) {
+            Some(v) if st.success() => ChildOutcome::Done(v),
+            _ => ChildOutcome::Died(format!("{st:?}")),
+        },
+    };
+    let _ = std::fs::remove_file(&out);
+    res
+}
+
+fn run_cases_parallel(cases: Vec<Value>, threads: usize) -> Vec<(Value, ChildOutcome)> {
+    let scratch = Arc::new(scratch_dir());
+    let model = model_path_arg();
+    let n = cases.len();
+    let queue: Arc<Mutex<VecDeque<(usize, Value)>>> = Arc::new(Mutex::new(cases.into_iter().enumerate().collect()));
+    let (tx, rx) = mpsc::channel();
+    let mut joins = vec![];
+    for t in 0..threads {
+        let queue = queue.clone();
+        let tx = tx.clone();
+        let scratch = scratch.clone();
+        let model = model.clone();
+        joins.push(std::thread::spawn(move || loop {
+            let item = queue.lock().unwrap().pop_front();
+            let Some((i, case)) = item else { break };
+            let r = catch_unwind(AssertUnwindSafe(|| run_child(&case, scratch.path(), &format!("t{t}_{i}"), &model))).unwrap_or(ChildOutcome::NotRun);
+            let _ = tx.send((i, case, r));
+        }));
+    }
+    drop(tx);
+    let mut out: Vec<Option<(Value, ChildOutcome)>> = (0..n).map(|_| None).collect();
+    for (i, case, r) in rx {
+        out[i] = Some((case, r));
+    }
+    for j in joins {
+        let _ = j.join();
+    }
+    out.into_iter().flatten().collect::<Vec<_>>()
+}
+
+fn absorb(ctx: &mut Ctx, case: &Value, outcome: ChildOutcome) -> Option<u64> {
+    let canon = format!("{} k={} perm={} policy={}", case["workload"]["name"], case["k"], case["perm"], case["policy"]);
+    match outcome {
+        ChildOutcome::NotRun => {
+            ctx.report.count("runs:child-could-not-be-started");
+            None
+        }
+        ChildOutcome::Timeout if case["hang_probe"].as_bool() == Some(true) => {
+            ctx.report.case(&canon, true);
+            ctx.report.count("hang-probe:blocked");
+            ctx.report.violation("oracle", "C11:add-blocks-forever-after-failed-commit",
+                format!("after a commit that failed on a worker error (no rollback), the writer has no workers: more than PIPELINE_MAX_SIZE_IN_DOCS add_document calls fill the channel and the next one never returns (child killed after {} s; k={})", case["timeout_s"], case["k"]), case.clone());
+            None
+        }
+        ChildOutcome::Timeout => {
+            ctx.report.case(&canon, true);
+            ctx.report.violation("oracle", "C11:hang", format!("the run did not finish within {} s (workload {}, k={}, permanent={}, policy {})", CHILD_TIMEOUT.as_secs(), case["workload"]["name"], case["k"], case["perm"], case["policy"]), case.clone());
+            None
+        }
+        ChildOutcome::Died(st) => {
+            ctx.report.case(&canon, true);
+            ctx.report.violation("oracle", "C11:process-aborted", format!("the child process died ({st}) (workload {}, k={}, permanent={}, policy {})", case["workload"]["name"], case["k"], case["perm"], case["policy"]), case.clone());
+            None
+        }
+        ChildOutcome::Done(v) => {
+            let injected = v["n_faulted"].as_u64().unwrap_or(0) > 0;
+            ctx.report.case(&canon, injected);
+            if injected {
+                ctx.report.traces_validated_against_impl += 1;
+            }
+            for viol in v["violations"].as_array().cloned().unwrap_or_default() {
+                ctx.report.violation(viol["kind"].as_str().unwrap_or("oracle"), viol["key"].as_str().unwrap_or("C11:unknown"), viol["what"].as_str().unwrap_or("").to_string(), case.clone());
+            }
+            if let Some(cs) = v["counts"].as_object() {
+                for (k, n) in cs {
+                    if !k.starts_with("violation:") {
+                        ctx.report.count_n(k, n.as_u64().unwrap_or(0));
+                    }
+                }
+            }
+            for p in v["phases"].as_array().cloned().unwrap_or_default() {
+                ctx.report.count(&format!("phase:{}", p.as_str().unwrap_or("?")));
+            }
+            ctx.report.count(if v["any_err"].as_bool().unwrap_or(false) { "runs:some-call-failed" } else { "runs:all-calls-ok" });
+            if v["gave_up"].as_bool().unwrap_or(false) {
+                ctx.report.count("runs:no-writer-until-faults-over");
+            }
+            if injected && ctx.report.samples.len() < 5 && v["any_err"].as_bool().unwrap_or(false) {
+                ctx.report.sample(json!({"workload": case["workload"]["name"], "k": case["k"], "permanent": case["perm"], "policy": case["policy"], "faulted": v["faulted"], "calls": v["calls"]}));
+            }
+            if let Some(t) = v["op_threads"].as_array() {
+                if !t.is_empty() {
+                    ctx.report.notes.push(format!("op_threads:{}:{}", case["workload"]["name"].as_str().unwrap_or(""),
+                        t.iter().map(|x| x.as_str().unwrap_or("")).collect::<Vec<_>>().join(",")));
+                }
+            }
+            v["n_ops"].as_u64()
+        }
+    }
+}
 
 pub fn run(ctx: &mut Ctx) {
-    ctx.report.notes.push("C11: harness not built yet".into());
+    if let Some(case) = ctx.replay.clone() {
+        if case.get("child").is_some() {
+            child_main(ctx, &case);
+            return;
+        }
+        // replay of one (workload, k, mode, policy) triple, in a child again
+        let mut res = run_cases_parallel(vec![case.clone()], 1);
+        if let Some((c, o)) = res.pop() {
+            absorb(ctx, &c, o);
+        }
+        return;
+    }
+    ctx.report.rule = "a run is non-trivial if the fault was actually injected (the k-th storage operation exists in that run); the evidence also counts runs in which some API call failed and the storage phases hit".into();
+    ctx.report.correspondence_obligations = vec![
+        "Result (Ok/Err/panic) of every API call of the executed script (recovery calls included) = result computed by the Lean fault model from the phases the faulted operations were attributed to (single-worker workloads without background merges)".into(),
+        "oracle (1): a commit that returned Ok is complete — re-opened storage holds exactly the expected documents".into(),
+        "oracle (2): the last successful commit (or a later complete attempt) is readable and searchable after every step and after re-opening; validate_checksum clean".into(),
+        "oracle (3): the fault is reported by the call whose phase it hit or by the next commit (worker), or confined to a merge, or an ignored GC failure (file stays managed), or fails one reload".into(),
+        "oracle (4): after rollback / drop of the failed writer a new writer opens, adds and commits".into(),
+        "oracle (5): no panic escapes an API call; the child process neither aborts nor exceeds the wall-clock limit".into(),
+    ];
+    let workloads = if ctx.thorough() { let mut r = ctx.rng.fork(); thorough_workloads(&mut r) } else { quick_workloads() };
+    let threads = std::thread::available_parallelism().map(|n| n.get()).unwrap_or(4).min(16);
+    // baselines: learn n
+    let base_cases: Vec<Value> = workloads.iter().map(|w| json!({"workload": w.to_json(), "k": Value::Null, "perm": false, "policy": "A"})).collect();
+    let mut ns: Vec<u64> = vec![];
+    for (case, outcome) in run_cases_parallel(base_cases, threads) {
+        if let ChildOutcome::Done(v) = &outcome {
+            if v["any_err"].as_bool().unwrap_or(true) {
+                ctx.report.violation("oracle", "C11:baseline-fails", format!("workload {} fails without any fault: {}", case["workload"]["name"], v["calls"]), case.clone());
+            }
+        }
+        let n = absorb(ctx, &case, outcome).unwrap_or(0);
+        ns.push(n);
+    }
+    let mut cases: Vec<Value> = vec![];
+    // quick tier: every k of the short workloads; long ones (> 220 operations) are swept with an
+    // even stride of 220 positions; thorough tier: every k of every workload
+    let max_positions: u64 = if ctx.thorough() { u64::MAX } else { 220 };
+    for (w, n) in workloads.iter().zip(ns.iter()) {
+        ctx.report.count_n(&format!("ops:{}", w.name), *n);
+        // background threads make the count vary a little from run to run: sweep a margin too
+        let total = *n + 3;
+        let ks: Vec<u64> = if total <= max_positions { (0..total).collect() } else { (0..max_positions).map(|i| i * total / max_positions).collect() };
+        for (j, k) in ks.iter().enumerate() {
+            for perm in [false, true] {
+                cases.push(json!({"workload": w.to_json(), "k": k, "perm": perm, "policy": "A"}));
+            }
+            // policy B (keep using the writer after an error, no rollback): every fourth position
+            if j % 4 == w.name.len() % 4 {
+                cases.push(json!({"workload": w.to_json(), "k": k, "perm": false, "policy": "B"}));
+            }
+        }
+    }
+    // thorough tier: the blocking add (runtime clause "does not hang") witnessed on the real code
+    if ctx.thorough() {
+        if std::env::var("C11_ONLY_PROBE").is_ok() {
+            cases.clear(); // development aid: exercise only the probe
+        }
+        let probe = wl("hang-probe", 1, 0, false, true, vec![Step::New, Step::Add(1), Step::Commit, Step::Add(2), Step::Commit, Step::Add(10_050), Step::Commit, Step::Drop]);
+        let base = json!({"workload": probe.to_json(), "k": Value::Null, "perm": false, "policy": "B"});
+        ctx.report.notes.retain(|n| !n.starts_with("op_threads:hang-probe:"));
+        for (case, outcome) in run_cases_parallel(vec![base], 1) {
+            absorb(ctx, &case, outcome);
+        }
+        let threads_line = ctx.report.notes.iter().find(|n| n.starts_with("op_threads:hang-probe:")).cloned().unwrap_or_default();
+        let ths: Vec<&str> = threads_line.trim_start_matches("op_threads:hang-probe:").split(',').collect();
+        // the worker operations of the second transaction: after the first meta.json write
+        let metas: Vec<usize> = ths.iter().enumerate().filter(|(_, t)| **t == "segment_updater|atomic_write|meta.json").map(|(i, _)| i).collect();
+        let (lo, hi) = (metas.first().cloned().unwrap_or(usize::MAX), metas.get(1).cloned().unwrap_or(0));
+        let second: Vec<usize> = ths.iter().enumerate().filter(|(i, t)| *i > lo && *i < hi && t.starts_with("thrd-tantivy-index")).map(|(i, _)| i).collect();
+        for k in second.iter().step_by((second.len() / 3).max(1)).take(3) {
+            cases.push(json!({"workload": probe.to_json(), "k": k, "perm": false, "policy": "B", "timeout_s": 20, "hang_probe": true}));
+        }
+    }
+    ctx.report.notes.retain(|n| !n.starts_with("op_threads:"));
+    let planned = cases.len();
+    ctx.report.count_n("child-runs", planned as u64);
+    let results = run_cases_parallel(cases, threads);
+    if results.len() != planned {
+        ctx.report.notes.push(format!("{} of {planned} planned runs produced no result (worker thread died)", planned - results.len()));
+        ctx.report.count_n("runs:lost", (planned - results.len()) as u64);
+    }
+    for (case, outcome) in results {
+        absorb(ctx, &case, outcome);
+    }
 }
